@@ -97,6 +97,7 @@ Inductive pc :=
 Record thread := mkThread { tpeer : nat; tmsgs : list nat; tpc : pc }.
 
 Record state := mkState {
+  f11 : bool;                              (* code variant: a connection whose set-up is refused is closed (fix of F11) *)
   tcp : bool;                              (* transport lets writes to dead peers succeed *)
   closed : bool;                           (* Router.isClosed *)
   nh : nat;                                (* registered error handlers 0 .. nh-1 *)
@@ -111,39 +112,39 @@ Record state := mkState {
   threads : nat -> option thread;
   nextt : nat }.
 
-Definition init (is_tcp : bool) (handlers : nat) : state :=
-  mkState is_tcp false handlers (fun _ => []) (fun _ => None) 0 (fun _ => true) (fun _ => 0)
+Definition init (fix_f11 is_tcp : bool) (handlers : nat) : state :=
+  mkState fix_f11 is_tcp false handlers (fun _ => []) (fun _ => None) 0 (fun _ => true) (fun _ => 0)
           [] [] [] (fun _ => None) 0.
 
 Definition upd {A} (f : nat -> A) (k : nat) (v : A) : nat -> A :=
   fun x => if x =? k then v else f x.
 
 Definition set_closed (s : state) v :=
-  mkState (tcp s) v (nh s) (table s) (conns s) (nextc s) (listening s) (incn s) (calls s)
+  mkState (f11 s) (tcp s) v (nh s) (table s) (conns s) (nextc s) (listening s) (incn s) (calls s)
           (delivered s) (dispatched s) (threads s) (nextt s).
 Definition set_table (s : state) v :=
-  mkState (tcp s) (closed s) (nh s) v (conns s) (nextc s) (listening s) (incn s) (calls s)
+  mkState (f11 s) (tcp s) (closed s) (nh s) v (conns s) (nextc s) (listening s) (incn s) (calls s)
           (delivered s) (dispatched s) (threads s) (nextt s).
 Definition set_conns (s : state) v :=
-  mkState (tcp s) (closed s) (nh s) (table s) v (nextc s) (listening s) (incn s) (calls s)
+  mkState (f11 s) (tcp s) (closed s) (nh s) (table s) v (nextc s) (listening s) (incn s) (calls s)
           (delivered s) (dispatched s) (threads s) (nextt s).
 Definition set_nextc (s : state) v :=
-  mkState (tcp s) (closed s) (nh s) (table s) (conns s) v (listening s) (incn s) (calls s)
+  mkState (f11 s) (tcp s) (closed s) (nh s) (table s) (conns s) v (listening s) (incn s) (calls s)
           (delivered s) (dispatched s) (threads s) (nextt s).
 Definition set_env (s : state) l i :=
-  mkState (tcp s) (closed s) (nh s) (table s) (conns s) (nextc s) l i (calls s)
+  mkState (f11 s) (tcp s) (closed s) (nh s) (table s) (conns s) (nextc s) l i (calls s)
           (delivered s) (dispatched s) (threads s) (nextt s).
 Definition set_calls (s : state) v :=
-  mkState (tcp s) (closed s) (nh s) (table s) (conns s) (nextc s) (listening s) (incn s) v
+  mkState (f11 s) (tcp s) (closed s) (nh s) (table s) (conns s) (nextc s) (listening s) (incn s) v
           (delivered s) (dispatched s) (threads s) (nextt s).
 Definition set_delivered (s : state) v :=
-  mkState (tcp s) (closed s) (nh s) (table s) (conns s) (nextc s) (listening s) (incn s) (calls s)
+  mkState (f11 s) (tcp s) (closed s) (nh s) (table s) (conns s) (nextc s) (listening s) (incn s) (calls s)
           v (dispatched s) (threads s) (nextt s).
 Definition set_dispatched (s : state) v :=
-  mkState (tcp s) (closed s) (nh s) (table s) (conns s) (nextc s) (listening s) (incn s) (calls s)
+  mkState (f11 s) (tcp s) (closed s) (nh s) (table s) (conns s) (nextc s) (listening s) (incn s) (calls s)
           (delivered s) v (threads s) (nextt s).
 Definition set_threads (s : state) v n :=
-  mkState (tcp s) (closed s) (nh s) (table s) (conns s) (nextc s) (listening s) (incn s) (calls s)
+  mkState (f11 s) (tcp s) (closed s) (nh s) (table s) (conns s) (nextc s) (listening s) (incn s) (calls s)
           (delivered s) (dispatched s) v n.
 
 Definition set_conn (s : state) (c : nat) (x : conn) : state := set_conns s (upd (conns s) c (Some x)).
@@ -158,6 +159,16 @@ Definition set_pc (x : thread) (p : pc) : thread := mkThread (tpeer x) (tmsgs x)
 Definition new_conn (s : state) (p : nat) (l : lstate) : state * nat :=
   let c := nextc s in
   (set_nextc (set_conn s c (mkConn p (incn s p) true false false l)) (S c), c).
+
+(* router.go closeRefused (fix of F11): a freshly opened or accepted connection whose set-up cannot
+   be completed is closed by the thread that holds it; the pinned code just dropped the handle *)
+Definition close_refused (s : state) (c : nat) : state :=
+  if f11 s then
+    match conns s c with
+    | Some x => set_conn s c (set_lclosed x true)
+    | None => s
+    end
+  else s.
 
 (* Conn.Send of one message: a locally closed connection refuses; a live remote end
    receives; a dead one refuses, unless the kernel buffers the write (TCP, oracle) *)
@@ -241,12 +252,12 @@ Definition thread_step (s : state) (t : nat) (oracle : bool) : option state :=
           else goto s (PDone RErr)                              (* "connecting: ..." *)
       | PIdent c o =>
           if ident_send s c oracle then goto s (PReg c o)
-          else goto s (PDone RErr)                              (* "sending: ..."; c is not closed *)
+          else goto (close_refused s c) (PDone RErr)            (* "sending: ..." *)
       | PReg c o =>
-          if closed s then goto s (PDone RErr)                  (* "register connection: closing" *)
+          if closed s then goto (close_refused s c) (PDone RErr)  (* "register connection: closing" *)
           else goto (set_table s (upd (table s) p (table s p ++ [c]))) (PLaunch c o)
       | PLaunch c o =>
-          if closed s then goto s (PDone RErr)                  (* "handling routine: closing" *)
+          if closed s then goto (close_refused s c) (PDone RErr)  (* "handling routine: closing" *)
           else match conns s c with
                | Some x =>
                    match loop x with
@@ -341,7 +352,7 @@ Definition step (s : state) (a : action) : option state :=
   | AAccept p =>
       if listening s p then
         let (s', c) := new_conn s p LNone in
-        if closed s then Some s'                                (* refused: "because it's closed" *)
+        if closed s then Some (close_refused s' c)              (* refused: "because it's closed" *)
         else Some (set_table s' (upd (table s') p (table s' p ++ [c])))
       else None
   | AAcceptClosing closes p =>
@@ -349,7 +360,7 @@ Definition step (s : state) (a : action) : option state :=
       else
         let c := nextc s in
         let s' := set_nextc (set_conn s c (mkConn p (incn s p) (negb closes) false (negb closes) LNone)) (S c) in
-        if closed s then Some s'
+        if closed s then Some (close_refused s' c)
         else Some (set_table s' (upd (table s') p (table s' p ++ [c])))
   | AAcceptFail p =>
       let c := nextc s in
@@ -360,7 +371,7 @@ Definition step (s : state) (a : action) : option state :=
           match loop x with
           | LNone =>
               if mem c (table s (cpeer x)) then
-                if closed s then Some s else Some (set_conn s c (set_loop x LRun))
+                if closed s then Some (close_refused s c) else Some (set_conn s c (set_loop x LRun))
               else None
           | _ => None
           end
